@@ -355,6 +355,14 @@ def _run_hyp(part, tier, n, seed, rec):
         test()
     except Violation:
         return dict(part=part.name, case=enc(last["case"]), msg=last["msg"])
+    except HarnessError:
+        raise
+    except BaseException as e:
+        # Hypothesis reports a failure that does not reproduce on its final replay as FlakyFailure (an exception group).
+        # The observed violation is still a violation of a universally quantified property; report the last failing case.
+        if last and type(e).__name__ in ("FlakyFailure", "Flaky", "FlakyReplay", "ExceptionGroup", "BaseExceptionGroup"):
+            return dict(part=part.name, case=enc(last["case"]), msg="[not reproduced on Hypothesis' final replay - the code under test draws its own randomness] " + last["msg"])
+        raise
     return None
 
 
